@@ -142,3 +142,29 @@ func vStringArrayData(fd *fieldDef, data []byte, thorough bool) {
 		}
 	}
 }
+
+// H01s: totality on the stream model. Every entry point on a generated
+// stream, whole and cut at an arbitrary offset, read in chunks: the only
+// assertion is the engine's own "no Go panic, every loop within its unwinding
+// bound". (The model streams include compressed-timestamp headers on messages
+// with and without a timestamp field, unknown messages, developer fields and
+// a second file_id record.)
+func H01s() {
+	s := vGenStream(vKindsParam(), vParam("crc") == 1)
+	chunk := vParam("chunk")
+	data := s.data
+	if vParam("cut") == 1 {
+		k := vConcretize(vInt(0, len(s.data)-1))
+		data = s.data[:k]
+	}
+	lg := &vLogger{}
+	_, _ = Decode(&vReader{data: data, chunk: chunk, failAt: -1}, WithLogger(lg), WithUnknownFields(), WithUnknownMessages())
+	_, _ = Decode(&vReader{data: data, chunk: chunk, failAt: -1})
+	_, _ = DecodeChained(&vReader{data: data, chunk: chunk, failAt: -1})
+	_ = CheckIntegrity(&vReader{data: data, chunk: chunk, failAt: -1}, false)
+	_ = CheckIntegrity(&vReader{data: data, chunk: chunk, failAt: -1}, true)
+	_, _ = DecodeHeader(&vReader{data: data, chunk: chunk, failAt: -1})
+	_, _, _ = DecodeHeaderAndFileID(&vReader{data: data, chunk: chunk, failAt: -1})
+	vReached("entry-points-returned")
+	vReached("end")
+}
